@@ -15,7 +15,7 @@ ASSUMPTIONS = ["the fault model is ArithmeticError raised by the user-visible KK
                "conelp answers 'unknown' for an iteration-0 failure that follows a successful start-up factorisation - both outcomes are accepted there"]
 REQUIRED_COUNTERS = ["inject.conelp.factor", "inject.conelp.solve", "inject.coneqp.factor", "inject.coneqp.solve", "inject.cpl.factor",
                      "inject.cpl.solve", "inject.cp.factor", "inject.cp.solve", "outcome.unknown", "outcome.rank-ValueError",
-                     "refusing-F.runs", "with-start-points", "coneqp.no-inequalities"]
+                     "refusing-F.runs", "with-start-points", "coneqp.no-inequalities", "nl.zero-optimum", "nl.show-progress", "cone.show-progress"]
 
 
 def plan(tier):
@@ -34,6 +34,7 @@ def run(ctx):
     from vlib import solverun as sr, solve_cases as sc
 
     OPTS = {"show_progress": False}
+    OPTS0 = {"show_progress": False}
 
     class Fault(ArithmeticError):
         pass
@@ -191,6 +192,9 @@ def run(ctx):
         opts = dict(OPTS)
         if rng.random() < 0.3:
             opts["refinement"] = rng.choice([0, 1, 2])
+        if rng.random() < 0.2:
+            opts["show_progress"] = True              # the progress / termination messages are code paths too
+            ctx.count("cone.show-progress")
         base = Injector(make, 0)
         sol0, _, exc0 = sr.call_entry(solver, pr, args, kktsolver=base, ps=ps, ds=ds, options=opts)
         if exc0 is not None or sol0["status"] != "optimal":
@@ -218,6 +222,23 @@ def run(ctx):
     def nl_case(c, rng, entry):
         pr = nl.gen_cpl(rng) if entry == "cpl" else nl.gen_cp(rng)
         d = pr.dims
+        OPTS = dict(OPTS0)
+        if rng.random() < 0.3:
+            # optimal value ~ 0 (pcost >= 0 >= dcost, 'relative gap' None while iterating): the exit code paths that
+            # format or compare the statistics see None
+            try:
+                s0_ = (solvers.cpl(sr.mk(pr.c), pr.make_F([]), sr.mk(pr.G), sr.mk(pr.h), d.asdict(), sr.mk(pr.A), sr.mk(pr.b), options=OPTS0)
+                       if entry == "cpl" else
+                       solvers.cp(pr.make_F([]), sr.mk(pr.G), sr.mk(pr.h), d.asdict(), sr.mk(pr.A), sr.mk(pr.b), options=OPTS0))
+            except Exception:
+                s0_ = None
+            if s0_ is not None and s0_["status"] == "optimal":
+                xs0 = np.array(list(s0_["x"]), dtype=float)
+                nl.zero_optimum(pr, entry, xs0, float(pr.c @ xs0) if entry == "cpl" else pr.funcs[0].val(xs0))
+                ctx.count("nl.zero-optimum")
+        if rng.random() < 0.3:
+            OPTS["show_progress"] = True          # the progress / termination messages are code paths too
+            ctx.count("nl.show-progress")
         log = []
         F_ = pr.make_F(log)
         mnl = len(pr.funcs) - (0 if entry == "cpl" else 1)
